@@ -240,6 +240,9 @@ func (e *Engine) VerifyFunc(c *Contract) {
 	fc.index()
 	st := NewState()
 	st.ghost[failedKey] = Var("failedDuring0", SBool)
+	if e.pkgs[modulePath] != nil {
+		e.renderCV(st) // materialise the render's context value before the entry snapshot
+	}
 	// receiver and parameters
 	declareParams := func(ft *ast.FuncType, recv *ast.FieldList) {
 		if recv != nil && len(recv.List) > 0 && len(recv.List[0].Names) > 0 {
@@ -430,11 +433,21 @@ func (fc *FnCtx) frameCheck(st *State, where string, pos token.Pos) {
 		if _, isGhost := sc.ghostLvalOf(m); isGhost {
 			continue
 		}
+		if rootIsCV(m) {
+			cvp := fc.e.renderCV(sc.st)
+			fc.e.renderCV(fc.entry)
+			if _, f := modRootField(m); f == "*" || f == "" {
+				allowed[tgt{cvp.Obj, "*"}] = true
+			} else {
+				allowed[tgt{cvp.Obj, f}] = true
+			}
+			continue
+		}
 		if call, ok := m.(*ast.CallExpr); ok && exprString(call.Fun) == "doc" {
 			// doc(w): for a runtime.Buffer the pending bytes / sticky error of its bufio.Writer may change
 			w := sc.tryEval(call.Args[0])
 			if w != nil {
-				if sv, _, ok := sc.runtimeBufferSym(w); ok {
+				if sv, ok := sc.runtimeBuffer(w); ok {
 					if bwp, ok := sv.F["b"].(*PtrV); ok {
 						allowed[tgt{bwp.Obj, "*"}] = true
 					}
